@@ -215,6 +215,16 @@ def examine_parse(case):
             break
     else:
         fields = [t]
+    stripped = [f.strip() for f in fields]
+    if stripped != fields and r[0] == 'ret' and all(f.isascii() and re.match(r'^\+?\d+$', f) for f in stripped):
+        # integer fields dressed the way int() tolerates (a plus sign, blanks, a trailing newline): the library need not
+        # accept them, but when it does "integers stay integers" holds for them too
+        exact = 0
+        for f in stripped:
+            exact = exact * 60 + int(f)
+        if not isinstance(r[1], int) or isinstance(r[1], bool) or r[1] != exact:
+            out.append(V('parse-exact', ['parse', 'int-value', 'dressed-fields'], case, repr(r[1]), str(exact)))
+        return out
     if all(f.isascii() and _FIELD.match(f) for f in fields):
         exact = Fraction(0)
         for f in fields:
@@ -245,6 +255,15 @@ def gen_structured(rng):
         fs.append(f)
     if rng.randrange(3) == 0:
         fs[-1] = fs[-1].split('.')[0] + '.' + ''.join(rng.choice('0123456789') for _ in range(rng.randrange(1, 4)))
+    if rng.randrange(8) == 0:
+        # fields dressed the way int() / float() tolerate: plus sign, blanks, trailing newline; now and then beyond 2**53
+        i = rng.randrange(len(fs))
+        if rng.randrange(6) == 0:
+            fs[i] = str(2 ** 53 + rng.randrange(1, 2000))
+        k = rng.randrange(6)
+        fs[i] = [' ' + fs[i], fs[i] + ' ', '+' + fs[i], '\t' + fs[i], ' +' + fs[i] + ' ', fs[i]][k]
+        if k == 5:
+            fs[-1] = fs[-1] + '\n'
     t = sep.join(fs)
     if rng.randrange(12) == 0:
         t = t.replace(sep, ':;'[rng.randrange(2)], 1)
